@@ -208,7 +208,7 @@ int main(int argc, char **argv) {
         if (0 == pid) {
             for (long j = start; j < ncases; j++) {
                 char *buf = NULL; size_t len = 0;
-                alarm(CASE_SECONDS);
+                hc_alarm(CASE_SECONDS);
                 npool = 0;
                 out = open_memstream(&buf, &len);
                 l = cases[j];
